@@ -8,7 +8,8 @@
  */
 #include "verif.h"
 
-/* ---- ghost state named by loop invariants of contracts/jsonser.loops.json: must precede the lowered text ----------- */
+/* ---- ghost state named by the loop invariants of contracts/jsonser.loops.json, jsonser_visit.loops.json and
+ * jsonser_pretty.loops.json (spliced into the lowered text, so it must be declared before it) -------------------------- */
 static const char *g_ws_src;      /* writeString: the source buffer */
 static unsigned long g_ws_n;      /* writeString(p,n): n ; writeString(p): index of the last byte of the buffer */
 static unsigned long g_wc_calls;  /* number of writeChar calls so far */
@@ -46,7 +47,7 @@ unsigned long nondet_child_bytes(void);
 /* ---- LogWriter contract (DESIGN 4.2) ---------------------------------------------------------------------------------
  * g_out/g_out_len: every byte OFFERED to the destination, in order == the text.  The value returned is the number of
  * bytes the destination accepted: all of them (std::string / DummyWriter behaviour) while g_room allows, min(n, room)
- * afterwards (StaticStringWriter behaviour, proved on the real StaticStringWriter::write x2 in unit jsonser_writer). */
+ * afterwards (StaticStringWriter behaviour, proved on the real StaticStringWriter::write x2 in unit jsonser_sw). */
 #define LOG_CAP 64
 static unsigned char g_out[LOG_CAP];
 static unsigned long g_out_len;
@@ -797,7 +798,36 @@ void h_tail(void) {
     else CHECK((unsigned char)buf[j] == old_j, "no byte other than buffer[length] is written by the tail; none when length >= n");
   }
 }
+/* measure<JsonSerializer>(source): a JsonSerializer<DummyWriter> with count 0 over the source's resources visits the
+ * source's data; its result is returned (L-C02a: the same visitor template over the writer that returns 1 / n) */
+static unsigned long g_ms_ret, g_ms_calls, g_ms_count0;
+static struct VariantData *g_ms_var;
+static struct ResourceManager *g_ms_res, *g_ms_ser_res;
+unsigned long VariantData__accept_JsonSerializer_DummyWriter__VariantData_p_ResourceManager_p_JsonSerializer_DummyWriter_r(struct VariantData *var, struct ResourceManager *resources, struct JsonSerializer_DummyWriter *visit) {
+  g_ms_calls++;
+  g_ms_var = var; g_ms_res = resources;
+  g_ms_ser_res = visit->resources_;
+  g_ms_count0 = visit->formatter_.writer_.count_;
+  return g_ms_ret;
+}
+void h_measure(void) {
+  char a, b;
+  struct JsonVariantConst src;
+  src.data_ = in_bool() ? (struct VariantData *)0 : (struct VariantData *)&a; /* distinguishable addresses, never dereferenced */
+  src.resources_ = in_bool() ? (struct ResourceManager *)0 : (struct ResourceManager *)&b;
+  g_ms_ret = in_size(); g_ms_calls = 0;
+  unsigned long r = force__meas_json(src);
+  COVER(src.data_ == 0); COVER(src.data_ != 0 && src.resources_ != 0);
+  CHECK(g_ms_calls == 1 && g_ms_var == src.data_ && g_ms_res == src.resources_ && g_ms_ser_res == src.resources_, "measure: the source is visited once, with its own resources");
+#ifdef CANARY_MEASURE
+  CHECK(g_ms_count0 == 1, "measure: counting starts at 0");
+#else
+  CHECK(g_ms_count0 == 0, "measure: counting starts at 0");
+#endif
+  CHECK(r == g_ms_ret, "measure: returns the visitor's count");
+}
 #endif /* U_TAIL */
+
 
 /* ===================================================================================================================
  * unit jsonser_visit: JsonSerializer<LogWriter>::visit(...)   (loop contracts in contracts/jsonser_visit.loops.json)
@@ -1210,3 +1240,99 @@ static void text_both(_Bool object) {
 void h_text_array(void) { text_both(0); COVER(g_tlen == 0); COVER(g_tlen == 3); COVER(g_out_len == 29); }
 void h_text_object(void) { text_both(1); COVER(g_tlen == 0); COVER(g_tlen == 4); COVER(g_out_len == 27); }
 #endif /* U_TEXT */
+
+/* ===================================================================================================================
+ * unit jsonser_accept: VariantData::accept<JsonSerializer<LogWriter>> and <PrettyJsonSerializer<LogWriter>>  (class U/W)
+ * Every stored kind reaches the visit overload of its kind with its payload unchanged ("every integer digit-exact, raw
+ * values verbatim, every string byte preserved" between the slot and the formatter); anything else is written as null.
+ * All visit overloads are stubs that record their argument; ResourceManager::getExtension is under contract
+ * (returns the extension slot of the id it is given).
+ * =================================================================================================================== */
+#ifdef U_ACCEPT
+enum { AV_NONE, AV_FLOAT, AV_DOUBLE, AV_ARRAY, AV_OBJECT, AV_STRING, AV_RAW, AV_LONG, AV_ULONG, AV_BOOL, AV_NULL, AV_PARRAY, AV_POBJECT };
+static int g_av; static unsigned g_av_calls;
+static float g_av_f32; static double g_av_f64; static void *g_av_ptr; static struct JsonString g_av_str;
+static struct SerializedValue_char_p g_av_raw; static long g_av_i64; static unsigned long g_av_u64; static _Bool g_av_bool;
+static void *g_av_self; static unsigned long g_av_ret;
+static union VariantExtension g_ext; static unsigned int g_ext_id; static unsigned g_ext_calls; static struct ResourceManager *g_rm;
+#define AV(code) do { g_av = (code); g_av_calls++; g_av_self = self; return g_av_ret; } while (0)
+unsigned long JsonSerializer_LogWriter__visit_float(struct JsonSerializer_LogWriter *self, float value) { g_av_f32 = value; AV(AV_FLOAT); }
+unsigned long JsonSerializer_LogWriter__visit_double(struct JsonSerializer_LogWriter *self, double value) { g_av_f64 = value; AV(AV_DOUBLE); }
+unsigned long JsonSerializer_LogWriter__visit__ArrayData_r(struct JsonSerializer_LogWriter *self, struct ArrayData *array) { g_av_ptr = array; AV(AV_ARRAY); }
+unsigned long JsonSerializer_LogWriter__visit__ObjectData_r(struct JsonSerializer_LogWriter *self, struct ObjectData *object) { g_av_ptr = object; AV(AV_OBJECT); }
+unsigned long PrettyJsonSerializer_LogWriter__visit__ArrayData_r(struct PrettyJsonSerializer_LogWriter *self, struct ArrayData *array) { g_av_ptr = array; AV(AV_PARRAY); }
+unsigned long PrettyJsonSerializer_LogWriter__visit__ObjectData_r(struct PrettyJsonSerializer_LogWriter *self, struct ObjectData *object) { g_av_ptr = object; AV(AV_POBJECT); }
+unsigned long JsonSerializer_LogWriter__visit__JsonString(struct JsonSerializer_LogWriter *self, struct JsonString value) { g_av_str = value; AV(AV_STRING); }
+unsigned long JsonSerializer_LogWriter__visit__SerializedValue_char_p(struct JsonSerializer_LogWriter *self, struct SerializedValue_char_p value) { g_av_raw = value; AV(AV_RAW); }
+unsigned long JsonSerializer_LogWriter__visit__long(struct JsonSerializer_LogWriter *self, long value) { g_av_i64 = value; AV(AV_LONG); }
+unsigned long JsonSerializer_LogWriter__visit__ulong(struct JsonSerializer_LogWriter *self, unsigned long value) { g_av_u64 = value; AV(AV_ULONG); }
+unsigned long JsonSerializer_LogWriter__visit___Bool(struct JsonSerializer_LogWriter *self, _Bool value) { g_av_bool = value; AV(AV_BOOL); }
+unsigned long JsonSerializer_LogWriter__visit__void_p(struct JsonSerializer_LogWriter *self, void *p) { (void)p; AV(AV_NULL); }
+union VariantExtension *ResourceManager__getExtension(struct ResourceManager *self, unsigned int id) {
+  CHECK(self == g_rm, "extension looked up in the resources handed to accept");
+  g_ext_calls++; g_ext_id = id;
+  return &g_ext;
+}
+static void accept_common(_Bool pretty) {
+  struct PrettyJsonSerializer_LogWriter pser; /* its base subobject is the compact serializer */
+  memset(&pser, 0, sizeof pser);
+  struct JsonSerializer_LogWriter *ser = &pser._b_JsonSerializer_LogWriter;
+  g_rm = (struct ResourceManager *)malloc(1);
+  struct VariantData v;
+  memset(&v, 0, sizeof v);
+  uint8_t type = in_u8();
+  v.type_ = type;
+  static char text[3] = {'a', 'b', 0};
+  struct StringNode *node = malloc(sizeof(struct StringNode) + 3);
+  __CPROVER_assume(node != 0);
+  uint16_t nlen = in_u16();
+  __CPROVER_assume(nlen <= 3);
+  node->length = nlen; node->next = 0; node->references = 1;
+  uint32_t u32 = in_u32(); uint64_t u64 = in_u64(); _Bool b = in_bool(); float f = in_f32();
+  g_ext.asUint64 = u64;
+  switch (type) {
+    case 0x03: case 0x05: v.content_.asOwnedString = node; break;
+    case 0x04: v.content_.asLinkedString = text; break;
+    case 0x06: v.content_.asBoolean = b; break;
+    case 0x0A: case 0x0C: v.content_.asUint32 = u32; break;
+    case 0x0E: v.content_.asFloat = f; break;
+    case 0x1A: case 0x1C: case 0x1E: v.content_.asSlotId = u32; break;
+    default: break;
+  }
+  unsigned int slot_id = v.content_.asSlotId;
+  _Bool isnull = in_bool();
+  g_av = AV_NONE; g_av_calls = 0; g_ext_calls = 0; g_av_ret = in_size();
+  unsigned long r = pretty
+    ? VariantData__accept_PrettyJsonSerializer_LogWriter__VariantData_p_ResourceManager_p_PrettyJsonSerializer_LogWriter_r(isnull ? 0 : &v, g_rm, &pser)
+    : VariantData__accept_JsonSerializer_LogWriter__VariantData_p_ResourceManager_p_JsonSerializer_LogWriter_r(isnull ? 0 : &v, g_rm, ser);
+  CHECK(g_av_calls == 1 && r == g_av_ret, "accept: exactly one visit, its result returned");
+  CHECK(g_av_self == (void *)ser || g_av_self == (void *)&pser, "accept: the visitor handed in is used");
+  if (isnull) { CHECK(g_av == AV_NULL && g_ext_calls == 0, "accept: an unbound variant is written as null"); return; }
+  if (type & 0x10) CHECK(g_ext_calls == 1 && g_ext_id == slot_id, "accept: 64-bit payloads are read from the extension slot named by the variant");
+  else CHECK(g_ext_calls == 0, "accept: no extension lookup for the other kinds");
+  switch (type) {
+    case 0x00: CHECK(g_av == AV_NULL, "Null -> null"); break;
+    case 0x03: CHECK(g_av == AV_RAW && g_av_raw.data_ == node->data && g_av_raw.size_ == nlen, "RawString -> raw value: the node's bytes, its length"); break;
+    case 0x04: CHECK(g_av == AV_STRING && g_av_str.data_ == text && g_av_str.size_ == 2, "LinkedString -> string: the pointer, strlen bytes"); break;
+    case 0x05: CHECK(g_av == AV_STRING && g_av_str.data_ == node->data && g_av_str.size_ == nlen, "OwnedString -> string: the node's bytes, its length (NULs included)"); break;
+    case 0x06: CHECK(g_av == AV_BOOL && g_av_bool == b, "Boolean -> bool"); break;
+#ifdef CANARY_ACCEPT
+    case 0x0A: CHECK(g_av == AV_ULONG && g_av_u64 == (u32 == 0x80000000u ? 0xffffffff80000000ul : u32), "Uint32 -> unsigned integer, zero-extended"); break;
+#else
+    case 0x0A: CHECK(g_av == AV_ULONG && g_av_u64 == u32, "Uint32 -> unsigned integer, zero-extended"); break;
+#endif
+    case 0x0C: CHECK(g_av == AV_LONG && g_av_i64 == (int32_t)u32, "Int32 -> signed integer, sign-extended"); break;
+    case 0x0E: CHECK(g_av == AV_FLOAT && memcmp(&g_av_f32, &f, 4) == 0, "Float -> float, every bit"); break;
+    case 0x1A: CHECK(g_av == AV_ULONG && g_av_u64 == u64, "Uint64 -> unsigned integer, every bit"); break;
+    case 0x1C: CHECK(g_av == AV_LONG && g_av_i64 == (int64_t)u64, "Int64 -> signed integer, every bit"); break;
+    case 0x1E: CHECK(g_av == AV_DOUBLE && memcmp(&g_av_f64, &u64, 8) == 0, "Double -> double, every bit"); break;
+    case 0x20: CHECK(g_av == (pretty ? AV_POBJECT : AV_OBJECT) && g_av_ptr == &v.content_.asObject, "Object -> the object visitor of the serializer in use, on the variant's own list"); break;
+    case 0x40: CHECK(g_av == (pretty ? AV_PARRAY : AV_ARRAY) && g_av_ptr == &v.content_.asArray, "Array -> the array visitor of the serializer in use, on the variant's own list"); break;
+    default: CHECK(g_av == AV_NULL, "any other tag is written as null"); break;
+  }
+}
+#define ACCEPT_COVERS COVER(g_av == AV_NULL); COVER(g_av == AV_RAW); COVER(g_av == AV_STRING); COVER(g_av == AV_BOOL); COVER(g_av == AV_ULONG); \
+  COVER(g_av == AV_LONG); COVER(g_av == AV_FLOAT); COVER(g_av == AV_DOUBLE); COVER(g_ext_calls == 1 && g_av == AV_LONG);
+void h_accept_compact(void) { accept_common(0); ACCEPT_COVERS COVER(g_av == AV_ARRAY); COVER(g_av == AV_OBJECT); }
+void h_accept_pretty(void) { accept_common(1); ACCEPT_COVERS COVER(g_av == AV_PARRAY); COVER(g_av == AV_POBJECT); }
+#endif /* U_ACCEPT */
